@@ -54,7 +54,12 @@ func pnum(s string) int  { var x int; fmt.Sscan(s, &x); return x }
 
 func newRegEnv(o *Out, c RegCase) *regEnv {
 	e := &regEnv{o: o, c: c, tables: map[int][]int{}, transit: map[int][]int{}, where: map[int]int{}}
-	e.r = reg.NewRegulator(reg.MaxPlayersPerTable(c.Max), reg.MinInitialPlayers(c.Min),
+	// the options are given in either order (they are meant to be independent)
+	o1, o2 := reg.MaxPlayersPerTable(c.Max), reg.MinInitialPlayers(c.Min)
+	if (c.Max+c.Min+len(c.Ops))%2 == 1 {
+		o1, o2 = o2, o1
+	}
+	e.r = reg.NewRegulator(o1, o2,
 		reg.WithRequestTableFn(func(players []string) (string, error) {
 			e.tcount++
 			id := e.tcount
@@ -450,7 +455,13 @@ func regCase(o *Out, c RegCase, rng *rand.Rand) {
 func genRegCase(rng *rand.Rand) RegCase {
 	c := RegCase{Delay: rng.Intn(2) == 0}
 	c.Max = 2 + rng.Intn(9)
+	if rng.Intn(6) == 0 {
+		c.Max = 10 + rng.Intn(6) // settings above the default maximum
+	}
 	c.Min = 2 + rng.Intn(c.Max-1)
+	if c.Max >= 10 && rng.Intn(2) == 0 {
+		c.Min = 10 + rng.Intn(c.Max-9) // a minimum above the default maximum
+	}
 	if rng.Intn(2) == 0 {
 		c.Max, c.Min = 9, 6
 	}
@@ -494,8 +505,9 @@ func runRegRandom(o *Out, rng *rand.Rand) {
 		case r == 8:
 			// a table the regulator does not know
 			id := e.tcount + 1 + rng.Intn(3)
-			e.done = append(e.done, RegOp{"sync", id, rng.Intn(2)})
-			e.sync(id, 0)
+			out := rng.Intn(3)
+			e.done = append(e.done, RegOp{"sync", id, out})
+			e.sync(id, out)
 		default:
 			ids := e.tableIDs()
 			if len(ids) == 0 {
